@@ -1,14 +1,91 @@
 (* C10 - only one submitter at a time; stale state never overwrites newer state.
-   Only statements here; every proof is `exact <lemma>` (ClusterProofs.v); model in Cluster.v. *)
+   Only statements here; every proof is `exact <lemma>` (ClusterProofs.v); the model of
+   jade/jobs/cluster.py and of the CLI call sites is Cluster.v.
+   All theorems quantify over EVERY operation sequence `ops` (any length, any number of handles on
+   any hosts, any interleaving) executed after Cluster.create on any host. *)
 From Coq Require Import List NArith Bool Arith.
 From Jade Require Import Base Cluster ClusterProofs.
 Import ListNotations.
 Open Scope N_scope.
 
-(* Along EVERY operation sequence (any length, any number of handles and hosts, starting from
-   Cluster.create on any host) in which handles demote only after their own successful promotion
-   (protocol_ok), at most one handle holds the role, the submitter field on disk names the holder's
-   host, and the field is set only if a holder exists. *)
+(* ---- stale state is rejected ------------------------------------------------------------------- *)
+(* In ANY state: if the handle's config copy is out of date and the operation writes the config, or
+   its job-status copy is out of date and the operation writes the job status (update_job_status
+   writes both), the operation does not take effect, all four files are unchanged, and - when the
+   operation's own precondition holds and the lock marker is absent - the result is a version
+   mismatch error. *)
+Theorem c10_stale_rejected : forall s i h o,
+  nth_error (s_handles s) i = Some h ->
+  (writes_cfg o = true /\ cfg_stale (s_disk s) h) \/ (writes_js o = true /\ js_stale (s_disk s) h) ->
+  let '(r, s') := step s (Do i o) in
+  s_disk s' = s_disk s /\ rejected r = true /\
+  (precond o h = true -> locked o && s_wedged s = false -> r = RCfgMismatch \/ r = RJsMismatch).
+Proof. exact stale_rejected. Qed.
+Print Assumptions c10_stale_rejected.
+
+(* prepare_for_resubmission (runs without the lock) as one call *)
+Theorem c10_prepare_stale_rejected : forall s i h v,
+  nth_error (s_handles s) i = Some h ->
+  cfg_stale (s_disk s) h \/ js_stale (s_disk s) h ->
+  let '(r, s') := prepare_resub s i v in
+  s_disk s' = s_disk s /\ is_exn r = true /\
+  (c_complete (h_cfg h) = true -> r = RCfgMismatch \/ r = RJsMismatch \/ (r = RAssertion /\ h_js h = None)).
+Proof. exact prepare_stale_rejected. Qed.
+Print Assumptions c10_prepare_stale_rejected.
+
+(* whatever raises (or times out on the lock marker) leaves all four files unchanged *)
+Theorem c10_failed_unchanged : forall host ops o,
+  let s := run (create host) ops in
+  failed (fst (step s o)) = true -> s_disk (snd (step s o)) = s_disk s.
+Proof. exact failed_unchanged. Qed.
+Print Assumptions c10_failed_unchanged.
+
+(* ---- no lost update ------------------------------------------------------------------------------ *)
+(* Every write that changes an object was made by a handle whose copy carried the latest version;
+   it installs that handle's copy with the next version; object and version file stay in step. *)
+Theorem c10_no_lost_update : forall host ops i o h,
+  let s := run (create host) ops in
+  nth_error (s_handles s) i = Some h ->
+  let d := s_disk s in
+  let s' := snd (step s (Do i o)) in
+  let d' := s_disk s' in
+  consistent d' /\
+  (cfg_changed d d' = true ->
+     c_version (h_cfg h) = d_cfg_vf d /\ d_cfg_vf d' = d_cfg_vf d + 1 /\
+     exists h', nth_error (s_handles s') i = Some h' /\ d_cfg d' = h_cfg h') /\
+  (js_changed d d' = true ->
+     (exists j, h_js h = Some j /\ j_version j = d_js_vf d) /\ d_js_vf d' = d_js_vf d + 1 /\
+     exists h', nth_error (s_handles s') i = Some h' /\ h_js h' = Some (d_js d')).
+Proof. exact no_lost_update_reach. Qed.
+Print Assumptions c10_no_lost_update.
+
+(* The disk history is a sequential composition: each version file equals 1 + the number of
+   changing writes so far (versions go up by exactly one per changing write, never otherwise). *)
+Theorem c10_versions_count_writes : forall host ops,
+  let s0 := create host in
+  d_cfg_vf (s_disk (run s0 ops)) = 1 + count_cfg_writes s0 ops /\
+  d_js_vf (s_disk (run s0 ops)) = 1 + count_js_writes s0 ops /\
+  c_version (d_cfg (s_disk (run s0 ops))) = d_cfg_vf (s_disk (run s0 ops)) /\
+  j_version (d_js (s_disk (run s0 ops))) = d_js_vf (s_disk (run s0 ops)).
+Proof. exact versions_count_writes_reach. Qed.
+Print Assumptions c10_versions_count_writes.
+
+(* A copy never runs ahead of the file; a copy with the current version has the current submitter
+   field, and what its handle wrote last IS the file content (nobody wrote in between). *)
+Theorem c10_fresh_copy : forall host ops i h,
+  let s := run (create host) ops in
+  nth_error (s_handles s) i = Some h ->
+  c_version (h_cfg h) <= d_cfg_vf (s_disk s) /\
+  (c_version (h_cfg h) = d_cfg_vf (s_disk s) ->
+     c_submitter (h_cfg h) = c_submitter (d_cfg (s_disk s)) /\
+     forall c, h_hash h = Some c -> c = d_cfg (s_disk s)).
+Proof. exact fresh_copy. Qed.
+Print Assumptions c10_fresh_copy.
+
+(* ---- one submitter --------------------------------------------------------------------------------- *)
+(* Under the CLI protocol hypothesis (protocol_ok: a handle calls demote only while its own
+   promotion is outstanding) at most one HANDLE holds the role, the submitter field names the
+   holder's host, and the field is set only if a holder exists. *)
 Theorem c10_single_holder : forall host ops,
   protocol_ok (create host) ops = true ->
   let s := run (create host) ops in
@@ -20,3 +97,125 @@ Theorem c10_single_holder : forall host ops,
              exists i h, nth_error (s_handles s) i = Some h /\ h_promoted h = true /\ h_host h = x).
 Proof. exact single_holder. Qed.
 Print Assumptions c10_single_holder.
+
+(* ... and while a handle holds it, Cluster.deserialize(try_promote_to_submitter=True) returns
+   promoted = False, promote_to_submitter() never returns True, and neither writes anything. *)
+Theorem c10_promote_refused : forall host ops,
+  protocol_ok (create host) ops = true ->
+  let s := run (create host) ops in
+  forall k hk, nth_error (s_handles s) k = Some hk -> h_promoted hk = true ->
+  (forall h0 j, s_wedged s = false -> fst (step s (Load h0 true j)) = RLoaded (length (s_handles s)) false) /\
+  (forall h0 j, s_disk (snd (step s (Load h0 true j))) = s_disk s) /\
+  (forall i, fst (step s (Do i HPromote)) <> RBool true /\ s_disk (snd (step s (Do i HPromote))) = s_disk s).
+Proof. exact promote_refused_reach. Qed.
+Print Assumptions c10_promote_refused.
+
+(* What identifies a holder to the CODE is the host name (am_i_submitter).  Across hosts the code
+   enforces the protocol by itself: in every reachable state (no hypothesis), a handle whose host
+   is not the one named in the file cannot demote, and nothing is written. *)
+Theorem c10_cross_host_demote_rejected : forall host ops i h,
+  let s := run (create host) ops in
+  nth_error (s_handles s) i = Some h ->
+  c_submitter (d_cfg (s_disk s)) <> Some (h_host h) ->
+  fst (step s (Do i HDemote)) <> ROk /\ s_disk (snd (step s (Do i HDemote))) = s_disk s.
+Proof. exact cross_host_demote_reach. Qed.
+Print Assumptions c10_cross_host_demote_rejected.
+
+(* Two handles on the SAME host are indistinguishable to the code: the scenario below (D5, formerly
+   resubmit_jobs) violates the protocol hypothesis - handle 1 was not promoted, yet its demote
+   succeeds - and afterwards two handles (0 and 2) believe they hold the role.  Not a violation of
+   the property by the current code (no CLI does this any more, see c10_callsites), but the reason
+   why c10_single_holder needs its hypothesis. *)
+Example c10_same_host_indistinguishable :
+  let ops := [Load 0 true true; Do 1%nat HDemote; Load 1 true true] in
+  protocol_ok (create 0) ops = false /\
+  map snd (trace (create 0) ops) = [RLoaded 1 false; ROk; RLoaded 2 true] /\
+  bit_of (run (create 0) ops) 0 = true /\ bit_of (run (create 0) ops) 2 = true.
+Proof. vm_compute. repeat split. Qed.
+(* the same attempt from another host is stopped by the assertion in _demote_from_submitter *)
+Example c10_other_host_demote_asserts :
+  map snd (trace (create 0) [Load 1 true true; Do 1%nat HDemote]) = [RLoaded 1 false; RAssertion].
+Proof. vm_compute. reflexivity. Qed.
+
+(* ---- system view: rounds ---------------------------------------------------------------------------- *)
+(* In every trace (no hypothesis) successful promotions and successful demotions alternate,
+   starting with the creator's promotion: at most one submitter round is in progress. *)
+Theorem c10_system_alternation : forall host ops, alternates true (trace (create host) ops) = true.
+Proof. exact alternation_reach. Qed.
+Print Assumptions c10_system_alternation.
+
+(* ---- the call sites ---------------------------------------------------------------------------------- *)
+(* Every run (any branch, any exception point, any prefix) of try_submit_jobs, cancel_jobs (one loop
+   iteration), resubmit_jobs, JobRunner._complete_hpc_job (one iteration) and of the read-only CLIs
+   demotes only while its own promotion is outstanding; so does JobSubmitter.run_submit_jobs, whose
+   handle comes promoted from Cluster.create. *)
+Theorem c10_callsites : forall p, In p cli_programs ->
+  forall evs, accepts p evs = true -> local_ok false evs = true.
+Proof. exact cli_programs_ok. Qed.
+Print Assumptions c10_callsites.
+Theorem c10_callsites_run_submit : forall evs, accepts prog_run_submit evs = true -> local_ok true evs = true.
+Proof. exact run_submit_ok. Qed.
+Print Assumptions c10_callsites_run_submit.
+
+(* If every handle's life is a run of one of these programs, the protocol hypothesis holds ... *)
+Theorem c10_callsites_protocol : forall host ops,
+  accepts prog_run_submit (events_of 0%nat (trace (create host) ops)) = true ->
+  (forall i, i <> 0%nat -> exists p, In p cli_programs /\ accepts p (events_of i (trace (create host) ops)) = true) ->
+  protocol_ok (create host) ops = true.
+Proof. exact callsites_protocol. Qed.
+Print Assumptions c10_callsites_protocol.
+
+(* ... and hence the CLIs, in any number and interleaving, on any hosts, keep a single holder. *)
+Theorem c10_single_holder_cli : forall host ops,
+  accepts prog_run_submit (events_of 0%nat (trace (create host) ops)) = true ->
+  (forall i, i <> 0%nat -> exists p, In p cli_programs /\ accepts p (events_of i (trace (create host) ops)) = true) ->
+  let s := run (create host) ops in
+  let sub := c_submitter (d_cfg (s_disk s)) in
+  (forall i h, nth_error (s_handles s) i = Some h -> h_promoted h = true -> sub = Some (h_host h)) /\
+  (forall i j hi hj, nth_error (s_handles s) i = Some hi -> nth_error (s_handles s) j = Some hj ->
+                     h_promoted hi = true -> h_promoted hj = true -> i = j) /\
+  (forall x, sub = Some x ->
+             exists i h, nth_error (s_handles s) i = Some h /\ h_promoted h = true /\ h_host h = x).
+Proof. exact single_holder_cli. Qed.
+Print Assumptions c10_single_holder_cli.
+
+(* resubmit_jobs as it was before its fix (D5) does NOT keep the protocol *)
+Theorem c10_resubmit_old_refuted : exists evs, accepts prog_resubmit_old evs = true /\ local_ok false evs = false.
+Proof. exact resubmit_old_refuted. Qed.
+Print Assumptions c10_resubmit_old_refuted.
+
+(* ---- non-vacuity ---------------------------------------------------------------------------------------- *)
+Definition demo_ops : list op :=
+  [Load 1 true true; Do 0%nat HDemote; Load 1 true true; Load 2 true false;
+   Do 2%nat (HUpdate 1 2 [5]); Do 2%nat HDemote; Load 2 true true].
+(* a protocol-following sequence with three rounds on two hosts *)
+Example c10_protocol_satisfiable :
+  protocol_ok (create 0) demo_ops = true /\
+  map snd (trace (create 0) demo_ops) =
+    [RLoaded 1 false; ROk; RLoaded 2 true; RLoaded 3 false; ROk; ROk; RLoaded 4 true] /\
+  c_submitter (d_cfg (s_disk (run (create 0) demo_ops))) = Some 2.
+Proof. vm_compute. repeat split. Qed.
+(* ... whose handles are runs of the CLI programs *)
+Example c10_callsites_satisfiable :
+  accepts prog_run_submit (events_of 0%nat (trace (create 0) demo_ops)) = true /\
+  forallb (fun i => existsb (fun p => accepts p (events_of i (trace (create 0) demo_ops))) cli_programs)
+          [1; 2; 3; 4]%nat = true.
+Proof. vm_compute. split; reflexivity. Qed.
+(* stale copies exist: handle 1 loaded before the creator demoted *)
+Example c10_stale_satisfiable :
+  let s := run (create 0) [Load 1 false true; Do 0%nat HDemote; Do 0%nat (HUpdate 0 2 [7])] in
+  exists h, nth_error (s_handles s) 1 = Some h /\ cfg_stale (s_disk s) h /\ js_stale (s_disk s) h /\
+            precond (HUpdate 1 3 []) h = true /\ fst (step s (Do 1%nat (HUpdate 1 3 []))) = RCfgMismatch.
+Proof.
+  eexists. split; [vm_compute; reflexivity|]. split; [vm_compute; discriminate|].
+  split; [eexists; split; [vm_compute; reflexivity|vm_compute; discriminate]|]. split; vm_compute; reflexivity.
+Qed.
+(* the defect repaired by "reject a stale job-status copy before the cluster config is written" *)
+Example c10_update_partial_write_history :
+  js_stale hist_disk hist_handle /\
+  fst (fst (update_old 1 7 [99] hist_disk hist_handle)) = RJsMismatch /\
+  snd (fst (update_old 1 7 [99] hist_disk hist_handle)) <> hist_disk /\
+  fst (act (HUpdate 1 7 [99]) hist_disk hist_handle) = (RJsMismatch, hist_disk).
+Proof.
+  destruct update_old_partial_write as [A [B C]]. split; [exact A|]. split; [exact B|]. split; [exact C|exact update_now_rejects].
+Qed.
